@@ -452,9 +452,9 @@ class DataType(object):
         if len(self.get_split()) <= len(other.get_split()):
             return False
 
-        previous_length = len(other.type)
+        previous_length = len(other.get_split())
 
-        if self.type[:previous_length] != other.type[:previous_length]:
+        if self.get_split()[:previous_length] != other.get_split():
             return False
 
         return True
